@@ -961,13 +961,19 @@ impl<T> IndexMut<NodeId> for Arena<T> {
         &mut self.nodes[node.index0()]
     }
 }
-#[verifier::external_body]
 pub fn assert_triangle_nodes<T>(
     arena: &Arena<T>,
     parent: Option<NodeId>,
     previous: Option<NodeId>,
     next: Option<NodeId>,
-) {
+)
+    // @props C05
+    requires
+        arena.ohas(previous),
+        arena.ohas(next),
+        previous is Some ==> arena.at(previous->0).parent == parent && arena.at(previous->0).next_sibling == next,
+        next is Some ==> arena.at(next->0).parent == parent && arena.at(next->0).previous_sibling == previous,
+{
     if let Some(previous_node) = match previous {
         Some(id) => Some(&arena[id]),
         None => None,
@@ -995,13 +1001,29 @@ pub fn assert_triangle_nodes<T>(
         );
     }
 }
-#[verifier::external_body]
 pub fn connect_neighbors<T>(
     arena: &mut Arena<T>,
     parent: Option<NodeId>,
     previous: Option<NodeId>,
     next: Option<NodeId>,
-) {
+)
+    // @props C01 C03 C04 C05 C08
+    requires
+        old(arena).ohas(parent),
+        old(arena).ohas(previous),
+        old(arena).ohas(next),
+        parent is Some ==> !old(arena).at(parent->0).stamp.removed() && (old(arena).at(parent->0).first_child is Some) == (old(
+            arena,
+        ).at(parent->0).last_child is Some),
+        previous is Some ==> !old(arena).at(previous->0).stamp.removed() && old(arena).at(previous->0).parent == parent,
+        next is Some ==> !old(arena).at(next->0).stamp.removed() && old(arena).at(next->0).parent == parent,
+        previous is Some && next is Some ==> (previous->0).idx() != (next->0).idx(),
+    ensures
+        // @ob C03.connect_neighbors_exact_effect C03 C04 C01 C08
+        connect_post(old(arena).nodes@, final(arena).nodes@, parent, previous, next),
+        final(arena).first_free_slot == old(arena).first_free_slot,
+        final(arena).last_free_slot == old(arena).last_free_slot,
+{
     if cfg!(debug_assertions) {
         if let Some(parent_node) = match parent {
             Some(id) => Some(&arena[id]),
@@ -1091,16 +1113,67 @@ pub struct SiblingsRange {
     pub last: NodeId,
 }
 impl SiblingsRange {
-    #[verifier::external_body]
-    pub fn new(first: NodeId, last: NodeId) -> Self {
+    pub fn new(first: NodeId, last: NodeId) -> (r: Self)
+        ensures
+            r.first == first,
+            r.last == last,
+    {
         Self { first, last }
     }
-    #[verifier::external_body]
-    pub fn detach_from_siblings<T>(self, arena: &mut Arena<T>) -> DetachedSiblingsRange {
+    pub fn detach_from_siblings<T>(self, arena: &mut Arena<T>) -> (r: DetachedSiblingsRange)
+        // @props C01 C03 C04 C05 C08
+        requires
+            links_ok(old(arena).nodes@),
+            old(arena).acyclic(),
+            old(arena).live(self.first),
+            old(arena).live(self.last),
+            old(arena).at(self.first).parent == old(arena).at(self.last).parent,
+            old(arena).at(self.first).previous_sibling is Some && old(arena).at(self.last).next_sibling is Some ==> old(arena).at(
+                self.first,
+            ).previous_sibling->0.idx() != old(arena).at(self.last).next_sibling->0.idx(),
+            old(arena).at(self.last).next_sibling is Some ==> old(arena).at(self.last).next_sibling->0.idx() != self.first.idx(),
+            old(arena).at(self.first).previous_sibling is Some ==> old(arena).at(self.first).previous_sibling->0.idx()
+                != self.last.idx(),
+        ensures
+            r.first == self.first,
+            r.last == self.last,
+            final(arena).first_free_slot == old(arena).first_free_slot,
+            final(arena).last_free_slot == old(arena).last_free_slot,
+            // @ob C03.detach_from_siblings_exact_effect C03 C04 C01 C08
+            detach_range_post(old(arena).nodes@, final(arena).nodes@, self.first.idx(), self.last.idx()),
+    {
+        proof {
+            let w = choose|w: Ranks| ranked(old(arena).nodes@, w);
+            lemma_detach_facts(old(arena).nodes@, w, self.first.idx(), self.last.idx());
+        }
         let parent = arena[self.first].parent;
         let prev_of_range = arena[self.first].previous_sibling.take();
         let next_of_range = arena[self.last].next_sibling.take();
+        let ghost mid = arena.nodes@;
         connect_neighbors(arena, parent, prev_of_range, next_of_range);
+        proof {
+            let o = old(arena).nodes@;
+            let n = arena.nodes@;
+            let f = self.first.idx();
+            let l = self.last.idx();
+            assert(parent == o[f].parent);
+            assert(prev_of_range == o[f].previous_sibling);
+            assert(next_of_range == o[l].next_sibling);
+            assert(mid.len() == o.len());
+            assert forall|i: int| 0 <= i < o.len() implies mid[i].previous_sibling == (if i == f {
+                None
+            } else {
+                o[i].previous_sibling
+            }) by {}
+            assert forall|i: int| 0 <= i < o.len() implies mid[i].next_sibling == (if i == l {
+                None
+            } else {
+                o[i].next_sibling
+            }) by {}
+            assert forall|i: int| 0 <= i < o.len() implies mid[i].first_child == o[i].first_child && mid[i].last_child
+                == o[i].last_child && mid[i].parent == o[i].parent && mid[i].stamp == o[i].stamp && mid[i].data == o[i].data by {}
+            assert(connect_post(mid, n, parent, prev_of_range, next_of_range));
+        }
         if cfg!(debug_assertions) {
             debug_assert_eq!(arena[self.first].previous_sibling, None);
             debug_assert_eq!(arena[self.last].next_sibling, None);
@@ -1129,24 +1202,84 @@ pub struct DetachedSiblingsRange {
     pub last: NodeId,
 }
 impl DetachedSiblingsRange {
-    #[verifier::external_body]
-    pub fn new(first: NodeId, last: NodeId) -> Self {
+    pub fn new(first: NodeId, last: NodeId) -> (r: Self)
+        ensures
+            r.first == first,
+            r.last == last,
+    {
         Self { first, last }
     }
-    #[verifier::external_body]
     pub fn rewrite_parents<T>(
         &self,
         arena: &mut Arena<T>,
         new_parent: Option<NodeId>,
-    ) -> Result<(), ConsistencyError> {
+    ) -> (res: Result<(), ConsistencyError>)
+        // @props C01 C02 C03 C04 C05 C08
+        requires
+            exists|c: Seq<int>| is_chain(old(arena).nodes@, self.first.idx(), c),
+        ensures
+            final(arena).nodes@.len() == old(arena).nodes@.len(),
+            final(arena).first_free_slot == old(arena).first_free_slot,
+            final(arena).last_free_slot == old(arena).last_free_slot,
+            // @ob C05.rewrite_parents_fails_only_on_parent_in_range C05
+            forall|c: Seq<int>| #[trigger]
+                is_chain(old(arena).nodes@, self.first.idx(), c) ==> (res is Err ==> new_parent is Some && c.contains(
+                    new_parent->0.idx(),
+                )),
+            // @ob C03.rewrite_parents_exact_effect C03 C04 C01 C08
+            forall|c: Seq<int>| #[trigger]
+                is_chain(old(arena).nodes@, self.first.idx(), c) ==> (res is Ok ==> reparent_post(
+                    old(arena).nodes@,
+                    final(arena).nodes@,
+                    c,
+                    new_parent,
+                )),
+    {
+        let ghost c = choose|c: Seq<int>| is_chain(old(arena).nodes@, self.first.idx(), c);
+        let ghost mut k: int = 0;
         let mut child_opt = Some(self.first);
-        while let Some(child) = child_opt {
+        while let Some(child) = child_opt
+            invariant
+                arena.nodes@.len() == old(arena).nodes@.len(),
+                arena.first_free_slot == old(arena).first_free_slot,
+                arena.last_free_slot == old(arena).last_free_slot,
+                is_chain(old(arena).nodes@, self.first.idx(), c),
+                0 <= k <= c.len(),
+                child_opt is Some <==> k < c.len(),
+                child_opt is Some ==> child_opt->0.idx() == c[k],
+                forall|i: int|
+                    0 <= i < old(arena).nodes@.len() ==> {
+                        &&& same_but_parent(#[trigger] arena.nodes@[i], old(arena).nodes@[i])
+                        &&& arena.nodes@[i].parent == (if c.subrange(0, k).contains(i) {
+                            new_parent
+                        } else {
+                            old(arena).nodes@[i].parent
+                        })
+                    },
+            ensures
+                child_opt is None,
+            // @ob C02.rewrite_parents_terminates C02
+            decreases c.len() - k,
+        {
             if Some(child) == new_parent {
+                proof {
+                    assert(c[k] == new_parent->0.idx());
+                    lemma_chain_unique(old(arena).nodes@, self.first.idx(), c);
+                }
                 return Err(ConsistencyError::ParentChildLoop);
             }
             let child_node = &mut arena[child];
             child_node.parent = new_parent;
             child_opt = child_node.next_sibling;
+            proof {
+                lemma_subrange_step(c, k);
+                k = k + 1;
+            }
+        }
+        proof {
+            assert(k == c.len());
+            assert(c.subrange(0, k) =~= c);
+            lemma_chain_unique(old(arena).nodes@, self.first.idx(), c);
         }
         Ok(())
     }
